@@ -70,7 +70,7 @@ func TestC12(t *testing.T) {
 	e := LoadEnv("C12")
 	cf := NewCaseFile("C12", "From Cache Require Import Base Backend Spec Check.", "check_c12")
 	cf.Rule = "configs: CountSoftLimit in {0,5,10,40}, EvictFraction in {0 (=0.1),0.01,0.1,0.5,0.99,1}, strategy in {MostExpired,LRU,LFU}, " +
-		"EvictionNeeded on/off; 10..150 ops: writes over a pool of up to 3x the limit (TTL none/+1h/-1h/unlimited mix), reads at distinct " +
+		"EvictionNeeded on/off, HeapInUse/SysMem soft limits unset or set to 2^60 (never exceeded); 10..150 ops: writes over a pool of up to 3x the limit (TTL none/+1h/-1h/unlimited mix), reads at distinct " +
 		"fake instants (access history), cleanups bracketed by Walks; 3 backends; non-trivial = a cleanup that evicted at least one entry " +
 		"and kept at least one; distinct = distinct Gallina term"
 
@@ -85,6 +85,8 @@ func TestC12(t *testing.T) {
 				TTL: []int64{0, h, -1}[e.Rng.Intn(3)], Jitter: -1, Name: "c", Strategy: e.Rng.Intn(3),
 				CountLimit: limits[e.Rng.Intn(len(limits))], EvictFrac: fracs[e.Rng.Intn(len(fracs))],
 				EvictNeed: e.Rng.Intn(4) == 0, DelAfter: []int64{0, h}[e.Rng.Intn(2)],
+				// memory limits that are configured but can never be exceeded must not trigger eviction
+				HeapLimit: []uint64{0, 0, 1 << 60}[e.Rng.Intn(3)], SysLimit: []uint64{0, 0, 1 << 60}[e.Rng.Intn(3)],
 			}
 			pool := 3*int(conf.CountLimit) + 4
 
